@@ -70,6 +70,7 @@ void QXmppIncomingClientPrivate::checkCredentials(const QByteArray &response)
         QXmppPasswordReply *reply = passwordChecker->checkPassword(request);
         reply->setParent(q);
         reply->setProperty("__sasl_raw", response);
+        reply->setProperty("__sasl_user", request.username());
         QObject::connect(reply, &QXmppPasswordReply::finished,
                          q, &QXmppIncomingClient::onPasswordReply);
     } else if (saslServer->mechanism() == u"DIGEST-MD5") {
@@ -518,7 +519,8 @@ void QXmppIncomingClient::onPasswordReply()
     }
     reply->deleteLater();
 
-    const QString jid = u"%1@%2"_s.arg(d->saslServer->username(), d->domain);
+    // the approval belongs to the user the checker was asked about, not to whatever <auth/> came last
+    const QString jid = u"%1@%2"_s.arg(reply->property("__sasl_user").toString(), d->domain);
     switch (reply->error()) {
     case QXmppPasswordReply::NoError:
         d->jid = jid;
